@@ -190,6 +190,12 @@ class Day:
             return ("%d" % self.mdn,)
         if s in ("jdn", "julian"):
             return (self.jdn_text(),)
+        if s == "%db":
+            # business day of the month; undefined (None) on weekends
+            if self.wd >= 5:
+                return None
+            from . import dur
+            return ("%02db" % dur.bday_index(self.o),)
         if s == "%dth":
             return ("%d%s" % (self.d, ordinal_suffix(self.d)),)
         if s == "%mth":
